@@ -307,8 +307,8 @@ class Evaluator:
 def run(ctx: common.Ctx) -> None:
     quick = ctx.tier == "quick"
     scale = float(os.environ.get("VERIF_SCALE", "1"))
-    n_bundles = max(1, int((20 if quick else 300) * scale))
-    n_corpus = int((40 if quick else 295) * scale)
+    n_bundles = max(1, int((20 if quick else 80) * scale))
+    n_corpus = int((40 if quick else 150) * scale)
     ctx.rule = ("generated bundle = 4 standalone modules + 1 package (core/util/sub.leaf, relative imports, re-exports); each "
                 "module mixes 8-16 definitions drawn from 20 feature emitters (vlib/c19_gen.py); plus importable inputs of "
                 "stubgen.test. A (module, mode) case is non-trivial when the module imports, is clean for mypy and has >= 8 "
